@@ -298,6 +298,21 @@ pub fn run(ctx: &Ctx) -> EvidenceMeta {
         ));
         ctx.merge_stats(st);
     }
+    // more complete frames pending at once than a 16-bit counter holds: the whole stream is pushed
+    // before anything is pulled
+    {
+        let mut items = vec![];
+        for (n, len) in if ctx.quick() { vec![(65_534u32, 0u32), (65_537, 0), (66_000, 1), (70_000, 0)] } else { vec![(65_534, 0), (65_537, 0), (66_000, 1), (70_000, 0), (131_100, 0), (66_000, 3)] } {
+            items.push(Case {
+                frames: (0..n).map(|i| (len, i as u64)).collect(),
+                cuts: vec![],
+                pulls: vec![255],
+                absolute: false,
+                regular: None,
+            });
+        }
+        ctx.enumerate("many-frames-pending", &items, test);
+    }
     let frame = || {
         let len = prop_oneof![
             3 => Just(0u32),
